@@ -27,6 +27,7 @@ var c18Emacs = []c18Key{
 var c18Vi = []c18Key{
 	{"h", "h"}, {"l", "l"}, {"x", "x"}, {"w", "w"}, {"b", "b"}, {"dw", "dw"}, {"i z ESC", "iz\x1b"}, {"A y ESC", "Ay\x1b"},
 	{"~", "~"}, {"0", "0"}, {"$", "$"}, {"r q", "rq"}, {"p", "p"}, {"C-a", "\x01"}, {"f o", "fo"}, {"2", "2"}, {"cw X ESC", "cwX\x1b"}, {"D", "D"}, {"u", "u"},
+	{"i backslash ESC", "i\\\x1b"}, {"i dquote ESC", "i\"\x1b"}, {"r backslash", "r\\"},
 }
 
 // second bytes of the ESC-prefixed sequences bound in vi-insert (filled by runC18)
